@@ -114,6 +114,12 @@ func runC04(r *Run) {
 	c04Unknown(r)
 	c04Rest(r)
 	c04JSONRules(r)
+
+	// the extra-data structure chosen for the backend leaf (rule set of C01.R5)
+	r.Shared("C04.R7", func() {
+		r.Rule("C01.R5")
+		c01LogLeaf(r)
+	})
 }
 
 // ---- R1 ---------------------------------------------------------------------------
